@@ -393,3 +393,52 @@ pub fn oracle_digests(sub: &str, x: &[u8], p: &Package, rank: u64, case: &dyn Fn
     }
     want
 }
+
+/// The path-based entry points must behave like the reader/writer based ones:
+/// `Package::open` / `PackageMetadata::open` like `parse` on the file's bytes, `write_file` like `write`.
+pub fn oracle_file_api(sub: &str, x: &[u8], rank: u64, case: &dyn Fn() -> Value, acc: &mut Acc) {
+    let dir = crate::ctx::run_dir().join(format!("fileapi-{}-{:?}", std::process::id(), std::thread::current().id()));
+    let _ = std::fs::create_dir_all(&dir);
+    let inp = dir.join("in.rpm");
+    let out = dir.join("out.rpm");
+    if std::fs::write(&inp, x).is_err() {
+        crate::ctx::machinery("file api: cannot write the scratch input");
+    }
+    let by_reader = parse_pkg(x);
+    let by_path = catch(|| rpm::Package::open(&inp));
+    let meta_by_path = catch(|| rpm::PackageMetadata::open(&inp));
+    let mut bad = |clause: &str, what: String| acc.viol(Violation::new(sub, what, case()).sig("clause", clause).rank(rank));
+    match (&by_reader, &by_path) {
+        (Ok(Ok(a)), Ok(Ok(b))) => {
+            let (wa, wb) = (write_pkg(a), write_pkg(b));
+            if wa.is_err() || wa != wb {
+                bad("open-differs-from-parse", "Package::open(path) gives a different package than Package::parse on the same bytes".into());
+            }
+            let _ = std::fs::remove_file(&out);
+            match catch(|| b.write_file(&out)) {
+                Ok(Ok(())) => {
+                    let got = std::fs::read(&out).unwrap_or_default();
+                    if Ok(&got) != wa.as_ref() {
+                        bad("write_file-differs-from-write", format!("write_file produced {} bytes that differ from what write produces ({} bytes)", got.len(), wa.as_ref().map(|v| v.len()).unwrap_or(0)));
+                    }
+                }
+                other => bad("write_file-fails", format!("write_file: {:?}", other.map(|r| r.map_err(|e| e.to_string())).map_err(|p| p.location()))),
+            }
+            match meta_by_path {
+                Ok(Ok(m)) => {
+                    let mut o = vec![];
+                    let mut want = vec![];
+                    if m.write(&mut o).is_err() || a.metadata.write(&mut want).is_err() || o != want {
+                        bad("metadata-open-differs", "PackageMetadata::open(path) differs from the metadata of the parsed package".into());
+                    }
+                }
+                other => bad("metadata-open-fails", format!("PackageMetadata::open fails on a file Package::parse accepts: {:?}", other.map(|r| r.map(|_| ()).map_err(|e| e.to_string())).map_err(|p| p.location()))),
+            }
+        }
+        (Ok(Err(_)), Ok(Err(_))) => {}
+        (Err(_), _) | (_, Err(_)) => {} // panics are C04's business
+        (Ok(Ok(_)), Ok(Err(e))) => bad("open-rejects", format!("Package::open rejects a file whose bytes Package::parse accepts: {}", e)),
+        (Ok(Err(e)), Ok(Ok(_))) => bad("open-accepts", format!("Package::open accepts a file whose bytes Package::parse rejects: {}", e)),
+    }
+    let _ = std::fs::remove_dir_all(&dir);
+}
